@@ -356,16 +356,21 @@ func run(tier string, raw json.RawMessage, from int, deadline time.Time) ux.Resu
 							accepted++
 							c.exercise(kase, fn, h, out >= 0, false)
 							if oe && want {
-								// handler reports an error
-								fe, _ := schema.NewCallableFunction("f", schemasOf(inputs), outS, oe, nil, makeHandler(h, errors.New("boom"), &calls))
-								args := make([]any, len(h.ins))
-								for i := range args {
-									args[i] = valueOf(h.ins[i]).Interface()
-								}
-								_, cerr := fe.Call(args)
-								var fce *schema.FunctionCallError
-								if cerr == nil || !errors.As(cerr, &fce) || !fce.IsFunctionReportedError || !strings.Contains(cerr.Error(), "boom") {
-									c.fail("error returned by the handler is not reported as function-reported", fmt.Sprintf("%s -> %v", kase, cerr), kase)
+								// handler reports an error: a plain one, one that is itself a FunctionCallError of a nested call
+								// (flag false), and one wrapping such an error - all are errors *returned by the handler*
+								inner := schema.NewFunctionCallError(errors.New("boom-inner"), false)
+								for ei, herr := range []error{errors.New("boom"), inner, fmt.Errorf("context: %w", inner)} {
+									fe, _ := schema.NewCallableFunction("f", schemasOf(inputs), outS, oe, nil, makeHandler(h, herr, &calls))
+									args := make([]any, len(h.ins))
+									for i := range args {
+										args[i] = valueOf(h.ins[i]).Interface()
+									}
+									_, cerr := fe.Call(args)
+									var fce *schema.FunctionCallError
+									if cerr == nil || !errors.As(cerr, &fce) || !fce.IsFunctionReportedError || !strings.Contains(cerr.Error(), "boom") ||
+										(ei == 2 && !strings.Contains(cerr.Error(), "context")) {
+										c.fail("error returned by the handler is not reported faithfully as function-reported", fmt.Sprintf("%s; handler returned %q (%T) -> %v", kase, herr, herr, cerr), kase)
+									}
 								}
 							}
 						})
